@@ -17,15 +17,15 @@ if [ "$REPO" != /repo ]; then
   sed "s#=> /repo#=> $REPO#g" "$H/go.mod" > "$ALT/go.mod"
   cat "$REPO/go.sum" "$REPO/cmd/go.sum" "$H/go.sum.extra" 2>/dev/null | sort -u > "$ALT/go.sum"
   MODFILE="$ALT/go.mod"
-else
-  cat /repo/go.sum /repo/cmd/go.sum "$H/go.sum.extra" 2>/dev/null | sort -u > "$H/go.sum.new"
-  cmp -s "$H/go.sum.new" "$H/go.sum" 2>/dev/null || cp "$H/go.sum.new" "$H/go.sum"
-  rm -f "$H/go.sum.new"
 fi
 rc=0
 (
   flock 9
   cd "$H" || exit 2
+  if [ "$REPO" = /repo ] && [ ! -s "$H/go.sum" ]; then
+    # go.sum = union of the repository's go.sum files (go adds what is missing from the module cache)
+    cat /repo/go.sum /repo/cmd/go.sum "$H/go.sum.extra" 2>/dev/null | sort -u > "$H/go.sum.$$" && mv "$H/go.sum.$$" "$H/go.sum"
+  fi
   for c in "$@"; do
     [ -d "cmd/$c" ] || { echo "no cmd/$c" >&2; exit 2; }
     builds="plain"
